@@ -162,6 +162,18 @@ add(
     "DESIGN.md 6/C17",
 )
 
+add(
+    "C20",
+    "exploration",
+    "Real Tuner over the scripted file back-end with real checkpoint directories, delete_checkpoints on/off, every pause-and-resume "
+    "scheduler (promotion Hyperband, PASHA, synchronous Hyperband + RemoveCheckpointsCallback, DEHB, PBT), 1-4 workers, tape-chosen "
+    "batching and order of results inside a poll, NaN-reporting scripts; a checkpoint ledger over the history decides when a delete is "
+    "legal and that every resume / clone finds its checkpoint (not deleted before, directory on disk). 1.6e4 runs quick, 3e5 thorough.",
+    "Speculative early removal is exempt by the property and not generated. 'Provably never resumed' is judged on each generated history.",
+    "property-based testing (Hypothesis choice tape owning batching and in-poll order, real Tuner): checkpoint-ledger invariants",
+    "DESIGN.md 6/C20",
+)
+
 NOT_YET = {}
 
 ALL = [f"C{i:02d}" for i in range(1, 21)]
